@@ -7,9 +7,10 @@ pub mod c07;
 pub mod c15;
 pub mod c16;
 pub mod c17;
+pub mod c18;
 
 pub fn all() -> Vec<PropDef> {
-    vec![c03::def(), c04::def(), c05::def(), c07::def(), c15::def(), c16::def(), c17::def()]
+    vec![c03::def(), c04::def(), c05::def(), c07::def(), c15::def(), c16::def(), c17::def(), c18::def()]
 }
 
 pub fn by_id(id: &str) -> Option<PropDef> {
